@@ -88,7 +88,8 @@ def gen_base(rng, tier, index):
     return {"kind": kind, "pool": kind, "workers": workers, "calls": calls,
             # all generators of a FunctorMap created first and consumed one after the other; the calls made from a thread
             # other than the main one
-            "create_all_first": kind == "fmap" and index % 4 == 3, "side_thread": index % 4 == 2}
+            "create_all_first": kind == "fmap" and index % 4 == 3, "side_thread": index % 4 == 2,
+            "many_fds": 1100 if index % 8 in (1, 6) else 0}      # the caller already holds more than FD_SETSIZE descriptors
 
 
 def owns(kind, mech, case, result):
